@@ -128,8 +128,8 @@ Definition int_literalb (i : list Z) : bool :=
 Definition g_item_okb (i : list Z) : bool := int_literalb i || zlist_eqb i G_STATUS.
 Definition g_reply_wfb (r : list Z) : bool :=
   match rev r with
-  | 10 :: body => forallb g_item_okb (split_on SEMI (rev body))
-  | _ => false
+  | x :: body => (x =? LF) && forallb g_item_okb (split_on SEMI (rev body))
+  | [] => false
   end.
 
 (* C05: a clean token: non-empty, no whitespace, no ';' *)
